@@ -1,5 +1,5 @@
-THEOREMS = []
-MODULES = []
+THEOREMS = ["Lbfgsb.C05.result_coherent", "Lbfgsb.C05.callback_coherent", "Lbfgsb.C05.counters_eq_log", "Lbfgsb.C05.result_is_ok_checkpoint"]
+MODULES = ["LbfgsbVerif.Props.C05"]
 MONITORS = ["C05", "C18"]
 N_QUICK, N_THOROUGH = 400, 4000
 COMMON = {"chain_frac": 0.4}
